@@ -52,7 +52,7 @@ class RunTimeout(BaseException):
     pass
 
 
-RUN_TIMEOUT_S = float(os.environ.get('VERIF_RUN_TIMEOUT_S', 25))
+RUN_TIMEOUT_S = float(os.environ.get('VERIF_RUN_TIMEOUT_S', 60))
 
 
 def guarded_run(mod, plan, **kw):
